@@ -3,6 +3,7 @@ import itertools as it
 from montepy.constants import ASCII_CEILING
 from montepy.utilities import *
 import os
+import secrets
 
 
 class MCNP_InputFile:
@@ -14,6 +15,10 @@ class MCNP_InputFile:
 
     .. versionchanged:: 0.3.0
         Added the overwrite attribute.
+
+    When opened for writing the text goes to a temporary file next to ``path``.
+    It replaces ``path`` in one step (:func:`os.replace`) when the ``with`` block ends without an exception;
+    if the block, or closing the file, raises, the temporary file is deleted and ``path`` is left exactly as it was.
 
     :param path: the path to the input file
     :type path: str
@@ -31,6 +36,8 @@ class MCNP_InputFile:
         self._overwrite = overwrite
         self._mode = None
         self._fh = None
+        self._temp_path = None
+        self._target_path = None
 
     @make_prop_pointer("_path")
     def path(self):
@@ -111,16 +118,75 @@ class MCNP_InputFile:
                 raise IsADirectoryError(
                     f"{self.path} is a directory, and cannot be overwritten."
                 )
+            self._fh = self._open_temporary(mode, encoding)
+            return self
         self._fh = open(self.path, mode, encoding=encoding)
         return self
+
+    def _open_temporary(self, mode, encoding):
+        """
+        Creates and opens a new file in the directory of the file to be written.
+
+        Nothing is written to :func:`path` itself before :func:`__exit__` renames this file to it.
+        A symbolic link is followed, so that the link is kept and the file it points to is replaced.
+
+        :returns: the open file handle.
+        """
+        target = os.path.realpath(self.path)
+        directory, base = os.path.split(target)
+        while True:
+            temp_path = os.path.join(
+                directory, f".{base[:64]}.{secrets.token_hex(4)}.tmp"
+            )
+            try:
+                # O_EXCL: never opens (and truncates) a file that is already there; 0o666 is cut by the umask,
+                # exactly like the permissions of a file that open(path, "w") creates.
+                fd = os.open(temp_path, os.O_WRONLY | os.O_CREAT | os.O_EXCL, 0o666)
+                break
+            except FileExistsError:
+                continue
+        self._temp_path = temp_path
+        self._target_path = target
+        try:
+            if os.path.isfile(target):
+                try:
+                    # an overwritten file keeps its permissions
+                    os.chmod(temp_path, os.stat(target).st_mode & 0o7777)
+                except OSError:
+                    pass
+            return open(fd, mode, encoding=encoding)
+        except BaseException:
+            try:
+                os.close(fd)
+            except OSError:
+                pass
+            self._discard_temporary()
+            raise
+
+    def _discard_temporary(self):
+        temp_path, self._temp_path = self._temp_path, None
+        if temp_path is not None:
+            try:
+                os.remove(temp_path)
+            except OSError:
+                pass
 
     def __enter__(self):
         self._fh.__enter__()
         return self
 
     def __exit__(self, exc_type, exc_val, exc_tb):
-        status = self._fh.__exit__(exc_type, exc_val, exc_tb)
-        self._fh = None
+        fh, self._fh = self._fh, None
+        if self._temp_path is None:
+            return fh.__exit__(exc_type, exc_val, exc_tb)
+        try:
+            # closing flushes the buffer: only a file that was closed without an error is complete
+            status = fh.__exit__(exc_type, exc_val, exc_tb)
+            if exc_type is None:
+                os.replace(self._temp_path, self._target_path)
+                self._temp_path = None
+        finally:
+            self._discard_temporary()
         return status
 
     def __iter__(self):
